@@ -158,6 +158,11 @@ type Fixture struct {
 	tailOnce sync.Once
 	tail     []byte
 	tailErr  error
+	// lengths of the three authentication messages and of the token segments
+	// in the honest run (sizes of the concrete position spaces)
+	MsgLen [4]int
+	SegLen [3]int
+	MacLen int
 }
 
 func NewFixture(tmp string, rnd func([]byte)) (*Fixture, error) {
@@ -249,6 +254,7 @@ type relay struct {
 	m2sent refcodec.C11Msg2
 	m2ok   bool
 	tailIn []byte // frames to inject when a client that accepted is left waiting
+	m1len  int
 }
 
 func splitTok(t string) (si string, sig []byte) {
@@ -330,13 +336,19 @@ func trailer(alt int) []byte {
 
 // editSeg flips one bit of one character of segment seg (0 header, 1 payload,
 // 2 signature) of a dot-separated token text.
-func editSeg(tok string, seg int, pos string, idx, bit int) string {
+func editSeg(tok string, seg int, pos string, v Variant) string {
 	parts := strings.Split(tok, ".")
 	if seg >= len(parts) || len(parts[seg]) == 0 {
 		return tok
 	}
 	b := []byte(parts[seg])
-	b = flip(b, posIndex(pos, len(b), idx), bit)
+	i := posIndex(pos, len(b), v.Idx)
+	if p := strings.IndexByte(b64alpha, b[i]); v.Edit == "sub" && p >= 0 {
+		// another character of the alphabet: the text stays well-formed base64url
+		b[i] = b64alpha[(p+1+v.Bit%63)%64]
+	} else {
+		b = flip(b, i, v.Bit)
+	}
 	parts[seg] = string(b)
 	return strings.Join(parts, ".")
 }
@@ -347,6 +359,7 @@ func (r *relay) onMessage(from, idx int, body []byte) (fwd, back [][]byte) {
 	switch {
 	case from == Cli && idx == 2: // message 1
 		m, err := refcodec.C11ParseMsg1(body)
+		r.m1len = len(body)
 		regular := err == nil && m.Status == refcodec.C11StatusOK
 		if !regular {
 			r.obs.Note += "client sent no regular message 1; "
@@ -476,9 +489,9 @@ func (r *relay) dev1(m refcodec.C11Msg1, body []byte) []byte {
 	sc, v := r.sc, r.v
 	switch sc.Kind {
 	case "tok_hdr":
-		m.Token = editSeg(m.Token, 0, sc.Pos, v.Idx, v.Bit)
+		m.Token = editSeg(m.Token, 0, sc.Pos, v)
 	case "tok_pay":
-		m.Token = editSeg(m.Token, 1, sc.Pos, v.Idx, v.Bit)
+		m.Token = editSeg(m.Token, 1, sc.Pos, v)
 	case "tok_pay_sub":
 		parts := strings.Split(m.Token, ".")
 		if len(parts) == 2 {
@@ -703,6 +716,13 @@ func (f *Fixture) Tail() ([]byte, error) {
 			return
 		}
 		f.tail = o.tail
+		f.MsgLen = [4]int{0, r.m1len, len(o.m2raw), len(o.m3raw)}
+		for i, p := range strings.Split(tok, ".") {
+			if i < 3 {
+				f.SegLen[i] = len(p)
+			}
+		}
+		f.MacLen = len(r.m2sent.Mac)
 	})
 	return f.tail, f.tailErr
 }
@@ -806,14 +826,14 @@ func Run(f *Fixture, model Model, sc *Scn, v Variant) (*Obs, *Scn, Concrete, err
 	switch sc.Kind {
 	case "tok_hdr":
 		if sc.Via == "config" {
-			r.clientTok = editSeg(base, 0, sc.Pos, v.Idx, v.Bit)
+			r.clientTok = editSeg(base, 0, sc.Pos, v)
 		}
 	case "tok_pay":
 		if sc.Via == "config" {
-			r.clientTok = editSeg(base, 1, sc.Pos, v.Idx, v.Bit)
+			r.clientTok = editSeg(base, 1, sc.Pos, v)
 		}
 	case "tok_sig":
-		r.clientTok = editSeg(base, 2, sc.Pos, v.Idx, v.Bit)
+		r.clientTok = editSeg(base, 2, sc.Pos, v)
 		was, _ := sigBytes(base)
 		if got, err := sigBytes(r.clientTok); err == nil && bytes.Equal(got, was) {
 			// the edit changed the spelling, not the signature
